@@ -33,6 +33,12 @@ CHECKS = {
  "C07": (True, "fault_enumeration", "deterministic simulation: simulated clock (instruction + die ticks) as work meter and watchdog; abort point swept over every budget value",
    "Work is measured in ticks of the simulated clock, so 'bounded work' is a deterministic count and a hang is a replayable event. For each generated program every OpCountLimit k <= min(N+1,400) is tried (error or the full outcome, within 16k+4096 ticks), the fault-free counter must cover all instructions and dice, adversarial programs run under budgets {small, 30000} x normal/min/max mode, ParseExprLimit is swept, and scaled program families with values known by construction are taken across each built-in capacity (known value or error, never a truncated program).",
    "The tick bound constant is the check's. Capacity families are generator-driven.", "DESIGN.md §4 C07", ENGINE_SESSION),
+ "C04": (True, "exploration", "deterministic simulation: simulator-controlled die source (seeded stream / forced faces / min-max mode) with a dice ledger checked against a rulebook",
+   "Every die passes through the Roll hook: the ledger records sides, mode, face and source, and in forcing runs the simulator chooses the faces (all-low, all-high, alternating, explode r rounds then stop at exactly the add line, uniform), which makes exploding rounds, keep-boundary ties and threshold-equal dice certain instead of rare. A rulebook written from the guide recomputes each family's total from the drawn faces; draws per rule, face legality, annotation value, dice listed in the text, rejection of illegal tuples with zero draws, and source identity are checked, through the Roll* functions and through VM syntax.",
+   "The rulebook is the trusted reference (guide wording). Parameters come from a boundary-biased grid plus random large values.", "DESIGN.md §4 C04", ENGINE_SESSION),
+ "C15": (True, "exploration", "deterministic simulation: simulator-controlled die source; min/max-mode runs vs real streams and forced extreme faces",
+   "For sums of non-exploding dice terms times non-negative constants: min-mode and max-mode draw zero dice from any generator (ledger + generator bytes), every result under 6 real streams and under forced face vectors (all lowest, all highest, alternating, CoC tens dice at 0) lies within [min-mode, max-mode], and for plain XdY terms the forced extreme faces reproduce the bounds exactly. Each term is checked alone first so that a violation names the family that causes it.",
+   "Monotone expressions only (as the property states).", "DESIGN.md §4 C15", ENGINE_SESSION),
 }
 
 NA = {
